@@ -601,6 +601,14 @@ class ReactiveServer:
                     conn.send(seg)
                 if pend[1]:
                     conn.close()
+            if k in sh.get('partial', {}):
+                # the connection dies part-way through this response head: the first n bytes, then
+                # the peer is gone; the same request sent again (on a new connection) is answered normally
+                n_out = sh['partial'].pop(k)
+                msg = b''.join(sh['script'][k][0])
+                t = asyncio.ensure_future(conn.send_segments([msg[:n_out]], eof=True))
+                sh['feeders'].append(t)
+                continue
             if k < len(sh['script']):
                 segs, eof = sh['script'][k]
                 hold = sh.get('hold', {}).get(k)
@@ -715,6 +723,7 @@ def real_session_sequence(exchanges, recorder_params=None, keep_alive=True, igno
         net = fakenet.FakeNet()
         shared = {'net': net, 'script': [(e['segs'], e['eof']) for e in exchanges], 'requests': [], 'feeders': []}
         shared['hold'] = {k: e['hold'] for k, e in enumerate(exchanges) if e.get('hold') is not None}
+        shared['partial'] = {k: e['die_after'] for k, e in enumerate(exchanges) if e.get('die_after')}
         paths = [e.get('path', '/p%d' % k) for k, e in enumerate(exchanges)]
         if len(set(paths)) == len(paths):
             shared['paths'] = {p: k for k, p in enumerate(paths)}
